@@ -27,7 +27,11 @@ const c11Prelude = "package main\nimport frt\nimport strings\n\nlet keepStrings 
 var c11FormNames = []string{`"..."`, "`...`", `$"..."`, "$`...`"}
 
 // hole variables available to interpolated literals and their display forms
-var c11Vars = map[string]string{"x": "42", "s": "a%b{c}", "b": "true"}
+var c11Vars = map[string]string{"x": "42", "s": "a%b{c}", "b": "true",
+	// display forms by type: negative, beyond 2^53 (not representable as a float64), zero, empty string, slice, tuple
+	"n": "-7", "g": "9007199254740993", "z": "0", "e": "", "l": "[1 2]", "t": "{1 a}"}
+
+var c11VarDefs = map[string]string{"x": "42", "s": "\"a%b{c}\"", "b": "true", "n": "0 - 7", "g": "9007199254740993", "z": "0", "e": "\"\"", "l": "[1; 2]", "t": "(1, \"a\")"}
 
 // c11Spec is the specification function: source body -> denoted text; ok=false
 // means the statement does not define the body (out of domain).
@@ -168,6 +172,19 @@ func c11HoleDriver() func(c *explore.Chooser) *c11Case {
 	}
 }
 
+// driver 4: the display form of a hole value by type
+func c11HoleTypeDriver() func(c *explore.Chooser) *c11Case {
+	vars := []string{"x", "s", "b", "n", "g", "z", "e", "l", "t"}
+	texts := []string{"", "v=", "%", "é"}
+	return func(c *explore.Chooser) *c11Case {
+		form := 2 + c.Choose(2)
+		v := vars[c.Choose(len(vars))]
+		before := texts[c.Choose(len(texts))]
+		after := texts[c.Choose(len(texts))]
+		return &c11Case{form: form, body: before + "{" + v + "}" + after, kind: "hole-value-types", ctx: c.Choose(2)}
+	}
+}
+
 func checkC11(c *core.Ctx) {
 	sc, err := impl.New(c.Repo)
 	if err != nil {
@@ -222,6 +239,7 @@ func checkC11(c *core.Ctx) {
 	collect(c11SpecialDriver(maxLen))
 	collect(c11CharDriver())
 	collect(c11HoleDriver())
+	collect(c11HoleTypeDriver())
 	c.Count(0, total.States, total.Transitions, 0)
 	c.Set("max_len_special_alphabet", maxLen)
 
@@ -258,14 +276,7 @@ func c11Program(cs *c11Case, k int) gobatch.Prog {
 			continue
 		}
 		used[h] = true
-		switch h {
-		case "x":
-			sb.WriteString("  let x = 42\n")
-		case "s":
-			sb.WriteString("  let s = \"a%b{c}\"\n")
-		case "b":
-			sb.WriteString("  let b = true\n")
-		}
+		fmt.Fprintf(&sb, "  let %s = %s\n", h, c11VarDefs[h])
 	}
 	lit := c11Literal(cs.form, cs.body)
 	if cs.ctx == 1 {
